@@ -210,10 +210,90 @@ func c16Corrupt(res *vlib.Result, pos int) {
 	res.Outcome("corrupt-secret-rejected")
 }
 
+// c16History: a sequence of imports into ONE importer cache (the importer's
+// cache is not fresh when the claim id arrives): each element is the intact
+// claim id, a copy with one secret character altered, or the intact id of a
+// second claim of the same minter. After the history, if the last import of
+// claim 1 was the intact id, minter and importer must hold the same key and a
+// resumption must work in both directions.
+func c16History(res *vlib.Result, hist []string) {
+	res.Evals++
+	res.Nontrivial++
+	id := "imports into one cache: " + strings.Join(hist, " -> ")
+	M, I := security.NewSessionCache(), security.NewSessionCache()
+	sinful := c16Sinfuls[2]
+	mc, err := security.MintClaimSession(M, security.MintClaimOptions{Sinful: sinful, Birthdate: 1, SequenceNum: 2})
+	mc2, err2 := security.MintClaimSession(M, security.MintClaimOptions{Sinful: sinful, Birthdate: 1, SequenceNum: 3})
+	if err != nil || err2 != nil {
+		res.Violate("C16/mint-error", "%v %v", err, err2)
+		return
+	}
+	claim := mc.ClaimID()
+	secret := security.ParseClaimIDStrict(claim).SecSessionKey()
+	alter := func(pos int) string {
+		b := []byte(claim)
+		off := len(claim) - len(secret) + pos
+		if b[off] == '0' {
+			b[off] = '1'
+		} else {
+			b[off] = '0'
+		}
+		return string(b)
+	}
+	lastIntact := false
+	for _, h := range hist {
+		var c string
+		switch h {
+		case "intact":
+			c, lastIntact = claim, true
+		case "altered@0":
+			c, lastIntact = alter(0), false
+		case "altered@last":
+			c, lastIntact = alter(len(secret)-1), false
+		case "other-claim":
+			c = mc2.ClaimID()
+		}
+		sid, err := security.ImportClaimSession(I, c, security.ClaimSessionOptions{PeerAddr: sinful})
+		res.Transitions++
+		if h == "intact" && (err != nil || sid != mc.SessionID()) {
+			res.Violate("C16/history/import-error", "%s: importing the intact claim id failed: %v (sid %q)", id, err, sid)
+			return
+		}
+	}
+	if !lastIntact {
+		res.Outcome("history-ends-with-altered-copy")
+		return
+	}
+	sid := mc.SessionID()
+	me, ok1 := M.Lookup(sid)
+	ie, ok2 := I.Lookup(sid)
+	if !ok1 || !ok2 {
+		res.Violate("C16/history/entry-missing", "%s: minter has=%v importer has=%v", id, ok1, ok2)
+		return
+	}
+	if me.KeyInfo() == nil || ie.KeyInfo() == nil || !bytes.Equal(me.KeyInfo().Data, ie.KeyInfo().Data) {
+		res.Violate("C16/history/key-differs", "%s: after importing the intact claim id the importer's key differs from the minter's", id)
+	}
+	if !me.Expiration().Equal(ie.Expiration()) {
+		res.Violate("C16/history/expiry-differs", "%s: minter %v importer %v", id, me.Expiration(), ie.Expiration())
+	}
+	for dir, caches := range [][2]*security.SessionCache{{I, M}, {M, I}} {
+		cc := baseCfg(security.SecurityOptional, security.SecurityOptional, nil, []security.CryptoMethod{security.CryptoAES}, false)
+		sc := baseCfg(security.SecurityOptional, security.SecurityOptional, nil, []security.CryptoMethod{security.CryptoAES}, true)
+		cc.SessionID, cc.Command = sid, 443
+		cc.SessionCache, sc.SessionCache = caches[0], caches[1]
+		r := hsRun(hsOpts{ClientCfg: cc, ServerCfg: sc, App: true})
+		if r.C.Err != nil || r.S.Err != nil || !r.C.Resumed || !r.S.Resumed || string(r.S.AppGot) != "ping-from-client" || string(r.C.AppGot) != "pong-from-server" {
+			res.Violate("C16/history/resumption-failed", "%s, direction %d: client %s server %s resumed %v/%v", id, dir, errStr(r.C.Err), errStr(r.S.Err), r.C.Resumed, r.S.Resumed)
+		}
+	}
+	res.Outcome("history-ok")
+}
+
 func C16Plan() *vlib.Plan {
 	p := &vlib.Plan{
 		Property: "C16", Level: "exploration",
-		Rule:   "E-ENUM full product: sinful in {plain, with params, with sock=, with embedded '#', bracketed IPv6} x Encryption/Integrity in {unset, true, false}^2 x cipher list in {'', AES, AESGCM, 'AES,BLOWFISH', 'AES,3DES,BLOWFISH'} x ValidCommands in {none, [443], [443,444]} x lifetime in {0, 60 s} x version in {'', long, short} x direction (importer dials / minter dials) x tag; each pair: cache entries compared (id, key, Encryption/Integrity/cipher/commands, expiry), public form searched for the secret, policy text render/parse fixed point, then a real resumption handshake (no negotiation on the wire) with ping/pong both ways. Plus every single-character alteration of the secret in both directions. Non-trivial = mint succeeded; ids distinct by construction.",
+		Rule:   "E-ENUM full product: sinful in {plain, with params, with sock=, with embedded '#', bracketed IPv6} x Encryption/Integrity in {unset, true, false}^2 x cipher list in {'', AES, AESGCM, 'AES,BLOWFISH', 'AES,3DES,BLOWFISH'} x ValidCommands in {none, [443], [443,444]} x lifetime in {0, 60 s} x version in {'', long, short} x direction (importer dials / minter dials) x tag; each pair: cache entries compared (id, key, Encryption/Integrity/cipher/commands, expiry), public form searched for the secret, policy text render/parse fixed point, then a real resumption handshake (no negotiation on the wire) with ping/pong both ways. Plus every single-character alteration of the secret in both directions, and every history of <= 3 (thorough 4) imports into ONE importer cache over {intact id, id with the first / last secret character altered, intact id of a second claim}: whenever the last import of the claim is the intact id, key and expiry must equal the minter's and resumption must work both ways. Non-trivial = mint succeeded; ids distinct by construction.",
 		Assume: []string{"peer caches are private per case (no process-global state involved)"},
 	}
 	p.Gen = func(tier string, yield func(vlib.Case)) {
@@ -250,6 +330,30 @@ func C16Plan() *vlib.Plan {
 				}
 			}
 		}
+		// import histories into one importer cache
+		hd := 3
+		if tier == "thorough" {
+			hd = 4
+		}
+		ab := []string{"intact", "altered@0", "altered@last", "other-claim"}
+		var rec func(h []string)
+		rec = func(h []string) {
+			if len(h) > 0 {
+				hh := append([]string(nil), h...)
+				yield(vlib.Case{ID: "import-history/" + strings.Join(hh, ","), Run: func() *vlib.Result {
+					res := &vlib.Result{}
+					c16History(res, hh)
+					return res
+				}})
+			}
+			if len(h) == hd {
+				return
+			}
+			for _, a := range ab {
+				rec(append(h, a))
+			}
+		}
+		rec(nil)
 		for pos := 0; pos < nCorrupt; pos++ {
 			pos := pos
 			yield(vlib.Case{ID: fmt.Sprintf("corrupt-secret@%d", pos), Run: func() *vlib.Result {
